@@ -131,6 +131,7 @@ type Exec struct {
 	calls     map[string]int
 	locked    map[string]bool
 	inCrit       bool
+	backEdgeCount map[*ssa.BasicBlock]int
 	lastRand     Term
 	collectFacts bool
 	pureFacts    []Term
